@@ -97,6 +97,7 @@ func c03Config(w c03World) []config.Node {
 			{Name: "source", Args: []string{"concurrency", "2"}},
 		}},
 		{Name: "check", Children: []config.Node{{Name: "&vchk"}}},
+		{Name: "modify", Children: []config.Node{{Name: "&vmod"}}},
 		{Name: "source", Args: []string{"refused.example"}, Children: []config.Node{{Name: "reject", Args: []string{"550", "5.7.1", "sender refused"}}}},
 		{Name: "default_source", Children: []config.Node{
 			{Name: "destination", Args: []string{"t1.example"}, Children: blk("vt1")},
@@ -139,6 +140,15 @@ func c03InstallFaults(w c03World) {
 	ehT2.Reset()
 	ehT3.Reset()
 	ehT1.Fault, ehT2.Fault = mk("vt1"), mk("vt2")
+	ehMod1.mu.Lock()
+	ehMod1.Opened, ehMod1.Closed = 0, 0
+	ehMod1.Fail = func(stage string) error {
+		if faults["mod:"+stage] {
+			return &exterrors.SMTPError{Code: 451, EnhancedCode: exterrors.EnhancedCode{4, 3, 0}, Message: "scripted modifier fault at " + stage}
+		}
+		return nil
+	}
+	ehMod1.mu.Unlock()
 	ehCheck1.mu.Lock()
 	ehCheck1.Verdict = func(stage, item string) module.CheckResult {
 		if faults["check:"+stage] {
@@ -498,6 +508,12 @@ func c03Exec(c c03Case) (res c03Run) {
 			}
 		}
 	}
+	ehMod1.mu.Lock()
+	mo, mc := ehMod1.Opened, ehMod1.Closed
+	ehMod1.mu.Unlock()
+	if mc > mo {
+		return fail("modifier-state-closed-twice", "modifier states opened %d, closed %d", mo, mc)
+	}
 	// The server closed its side of the connection only after Session.Logout returned
 	// (go-smtp Conn.Close), so the permit counters are final here: they are read
 	// directly (no waiting, no wall-clock deadline in the oracle).
@@ -530,7 +546,7 @@ func c03Exec(c c03Case) (res c03Run) {
 }
 
 func c03Worlds(thorough bool) []c03World {
-	faults := []string{"", "vt1:start", "vt1:rcpt", "vt1:body", "vt1:commit", "vt1:abort", "vt2:start", "vt2:rcpt", "vt2:body", "vt2:status", "vt2:commit", "vt2:abort", "check:conn", "check:sender", "check:rcpt", "check:body"}
+	faults := []string{"", "vt1:start", "vt1:rcpt", "vt1:body", "vt1:commit", "vt1:abort", "vt2:start", "vt2:rcpt", "vt2:body", "vt2:status", "vt2:commit", "vt2:abort", "check:conn", "check:sender", "check:rcpt", "check:body", "mod:init", "mod:sender", "mod:rcpt", "mod:body"}
 	var ws []c03World
 	for _, lmtp := range []bool{false, true} {
 		for _, df := range []bool{true, false} {
@@ -560,7 +576,7 @@ func c03Worlds(thorough bool) []c03World {
 func TestVerifC03(t *testing.T) {
 	r := vx.Start("C03", "sessions")
 	defer r.Finish()
-	r.Rule("explicit-state BFS over SMTP/LMTP command sequences (20 commands: greeting, MAIL valid / upper-case / refused sender / malformed / non-ASCII sender without SMTPUTF8, RCPT to target 1 / target 2 / both / upper-case / refused / malformed, DATA, DATA cut off by a disconnect in the middle of the message, DATA with too many Received fields, BDAT LAST, RSET, NOOP, QUIT, disconnect) on the real endpoint (go-smtp server over a pipe, pipeline built from configuration, two monitored targets (atomic and per-recipient), scripted check, real limits with concurrency 2 in the all/ip/source scopes), per world = {SMTP, LMTP} x {deferred, immediate sender reject} x one persistent fault (none or Start/AddRcpt/Body/status/Commit/Abort of a target, or a check reject at conn/sender/rcpt/body) x map iteration order; successor = fresh endpoint + replay of the history + one command; state = protocol mirror + typestate of every target delivery; invariants: target typestate (closed exactly once, no use after close), success reply => committed on every accepted recipient's target, failure before commit => nothing committed, at session end every delivery closed and every permit returned")
+	r.Rule("explicit-state BFS over SMTP/LMTP command sequences (20 commands: greeting, MAIL valid / upper-case / refused sender / malformed / non-ASCII sender without SMTPUTF8, RCPT to target 1 / target 2 / both / upper-case / refused / malformed, DATA, DATA cut off by a disconnect in the middle of the message, DATA with too many Received fields, BDAT LAST, RSET, NOOP, QUIT, disconnect) on the real endpoint (go-smtp server over a pipe, pipeline built from configuration, two monitored targets (atomic and per-recipient), scripted check, real limits with concurrency 2 in the all/ip/source scopes), per world = {SMTP, LMTP} x {deferred, immediate sender reject} x one persistent fault (none or Start/AddRcpt/Body/status/Commit/Abort of a target, a check reject at conn/sender/rcpt/body, or a modifier error at state creation / sender / recipient / body rewriting) x map iteration order; successor = fresh endpoint + replay of the history + one command; state = protocol mirror + typestate of every target delivery; invariants: target typestate (closed exactly once, no use after close), success reply => committed on every accepted recipient's target, failure before commit => nothing committed, at session end every delivery closed and every permit returned")
 	r.Assume("a second fault is only combined in the thorough tier; TLS, AUTH and proxy-protocol paths are not driven here (AUTH: C14)")
 	if rp := r.Replay(); rp != nil {
 		var c c03Case
